@@ -13,8 +13,16 @@ Keys: one per distinct site = innermost /repo frame + class, e.g.
 import json
 import os
 import re
+import resource
 
 import hv
+
+try:    # the extracted model recurses as deep as the input nests
+    _soft, _hard = resource.getrlimit(resource.RLIMIT_STACK)
+    _want = 4 << 30
+    resource.setrlimit(resource.RLIMIT_STACK, (_want if _hard == resource.RLIM_INFINITY else min(_want, _hard), _hard))
+except Exception:
+    pass
 
 K_ALLOC = 256          # bytes of TotalAlloc per input byte ...
 K0_ALLOC = 1 << 17     # ... plus this much (measured on the valid seed streams: see evidence "valid_alloc")
@@ -108,7 +116,11 @@ SITE_KEY = {
     "ref-nil-set": "io.assignTo:reflect-Set-zero-Value",
     "ref-nil-kind": "io.GetConverter:nil-deref",
     "objmap-field": "io.mapDecoder.decodeObjectAsMap:nil-deref",
+    "objmap-key": "fatal:memory-corruption:io.mapDecoder.decodeObjectAsMap",
+    "client-count": "core.clientCodec.Decode:index-out-of-range",
+    "array-neg": "io.arrayDecoder.Decode:out-of-bounds-write",
 }
+FATAL_SITES = {"objmap-key", "array-neg"}      # the runtime dies (or the heap is silently damaged): such cases run in a process of their own
 
 PANIC_CLASSES = [
     (r"index out of range", "index-out-of-range"),
@@ -122,7 +134,9 @@ PANIC_CLASSES = [
     (r"reflect\.Set: value of type", "reflect-Set-type-mismatch"),
     (r"interface conversion", "interface-conversion"),
     (r"assignment to entry in nil map", "nil-map-write"),
-    (r"out of memory", "out-of-memory"),
+    (r"out of memory|cannot allocate memory", "out-of-memory"),
+    (r"nameOff|typeOff|name offset|type offset|unexpected fault address|SIGSEGV|SIGBUS|bad pointer|invalid pointer|"
+     r"unexpected signal|found pointer to free object|misrounded|corrupt|invalid memory address", "memory-corruption"),
     (r"stack overflow|stack exceeds", "stack-overflow"),
 ]
 
@@ -137,7 +151,20 @@ def panic_class(msg):
     return re.sub(r"[^A-Za-z0-9]+", "-", msg)[:40].strip("-")
 
 
+def fatal_class(err):
+    head = err[:600]
+    if re.search(r"out of memory|cannot allocate memory", head):
+        return "out-of-memory"
+    if re.search(r"stack overflow|stack exceeds", head):
+        return "stack-overflow"
+    if re.search(r"concurrent map", head):
+        return "concurrent-map-access"
+    return "memory-corruption"        # nameOff / typeOff out of range, SIGSEGV in the runtime, bad pointer in the heap ...
+
+
 def loop_owner(frames):
+    if frames and frames[0] in ("io.strConverter",):
+        return frames[0]
     for f in frames or []:
         if LOOP_OWNER.search(f) and "fastDecode" not in f:
             return f
@@ -165,12 +192,19 @@ def impl_verdict(case, o, crash):
     if o is None:
         rc, err = crash[1], crash[2]
         if "executor watchdog: timeout" in err:
-            return "fatal", "hang:" + loop_owner(crash[3] if len(crash) > 3 else []), "no result within the watchdog's 6 s"
+            own = loop_owner(crash[3] if len(crash) > 3 else [])
+            if own == "io.strConverter":     # fmt.Sprint of a map that contains itself: killed before the 1 GB stack limit
+                return "fatal", "fatal:stack-overflow:io.strConverter", "unbounded recursion (watchdog fired before the stack limit)"
+            return "fatal", "hang:" + own, "no result within the watchdog's 6 s"
         if "executor watchdog: memory" in err:
             return "fatal", "overalloc:" + loop_owner(crash[3] if len(crash) > 3 else []), "heap above 1 GiB"
-        cl = panic_class(err)
+        cl = fatal_class(err)
         fr = stderr_frames(err)
+        if cl == "memory-corruption" and fr and fr[0] == "io.arrayDecoder.Decode":
+            return "fatal", "io.arrayDecoder.Decode:out-of-bounds-write", "the executor process died (rc %s): %s" % (rc, err[:160])
         return "fatal", "fatal:%s:%s" % (cl, fr[0] if fr else "?"), "the executor process died (rc %s): %s" % (rc, err[:160])
+    if o["outcome"] == "panic" and o.get("frame") == "io.arrayDecoder.Decode" and panic_class(o.get("panic", "")) == "nil-deref":
+        return "panic", "io.arrayDecoder.Decode:out-of-bounds-write", "panic: " + o.get("panic", "")[:120]
     if o["outcome"] == "panic":
         return "panic", "%s:%s" % (o.get("frame") or "?", panic_class(o.get("panic", ""))), "panic: " + o.get("panic", "")[:120]
     if o["outcome"] == "builderr":
@@ -267,10 +301,11 @@ def run_impl(cases, max_crashes):
     return obs, cr
 
 
-def run_impl_frames(cases, max_crashes):
+def run_impl_frames(cases, max_crashes, max_hangs=8):
     """like run_harness_resilient, but keeps the /repo frames the executor's watchdog printed"""
     import subprocess
     obs_by_id, crashes = {}, {}
+    hangs = 0
     todo = list(cases)
     exe = os.path.join(hv.HBIN, "hv-c04")
     while todo:
@@ -302,10 +337,11 @@ def run_impl_frames(cases, max_crashes):
         c = todo[idx]
         if fatal is not None and fatal["id"] == c["id"]:
             crashes[c["id"]] = [c, rc, "fatal error: case exceeded the executor watchdog: " + fatal["fatal"], fatal.get("frames", [])]
+            hangs += fatal["fatal"] == "timeout"
         else:
-            crashes[c["id"]] = [c, rc, se[:3000] + " ... " + se[-300:], []]
+            crashes[c["id"]] = [c, rc, se[:3000] + " ... " + se[-8000:], []]
         todo = todo[idx + 1:]
-        if len(crashes) >= max_crashes:
+        if len(crashes) >= max_crashes or hangs >= max_hangs:
             for c2 in todo:
                 crashes.setdefault(c2["id"], [c2, -1, "not run: crash budget exhausted", []])
             break
@@ -335,6 +371,9 @@ def calibrate(ctx):
         "ref-nil-set": {"entry": "client", "hex": b"Ra2{1r0;}z".hex(), "rt": [{"k": "int"}, I]},
         "ref-nil-kind": {"entry": "client", "hex": b"Ra2{1r0;}z".hex(), "rt": [{"k": "int"}, {"k": "int"}]},
         "objmap-field": U('c2"Pt"1{s1"q"}o0{1}', {"k": "map", "key": {"k": "string"}, "e": I}),
+        "objmap-key": U('c2"Pt"1{s1"x"}o0{1}', {"k": "map", "key": I, "e": I}),
+        "array-neg": U("a-100000000{}", {"k": "array", "n": 2, "e": {"k": "int"}}),
+        "client-count": {"entry": "client", "hex": b"Ra-1{}z".hex(), "rt": [{"k": "int"}, {"k": "int"}]},
         # behavioural repairs
         "fx_neg": U("a-1{}", {"k": "slice", "e": {"k": "int"}}),
         "fx_count": U("a9{}", {"k": "slice", "e": {"k": "int"}}),
@@ -348,7 +387,12 @@ def calibrate(ctx):
         c = dict(wit[n])
         c["id"] = i
         cases.append(c)
-    obs, crashes = run_impl_frames(cases, 30)
+    obs, crashes = run_impl_frames([c for c, n in zip(cases, names) if n not in FATAL_SITES], 30)
+    for c, n in zip(cases, names):
+        if n in FATAL_SITES:
+            o1, c1 = run_impl_frames([c], 2)
+            obs.update(o1)
+            crashes.update(c1)
     checked, fx = [], {}
     detail = {}
     for i, n in enumerate(names):
@@ -567,7 +611,7 @@ def generate(ctx, seeds):
 
 # ------------------------------------------------------------------ comparison
 
-def expected_from_model(m):
+def expected_from_model(m, n=0):
     """what the model predicts of the implementation: (kind, detail)
        kind: value | error | panic | blowup | corrupt | skip | unsure"""
     cl = m["class"]
@@ -580,6 +624,10 @@ def expected_from_model(m):
         return ("blowup", "steps=%d alloc=%d" % (steps, alloc))
     if steps > FAST_STEPS or alloc > HEAVY_ALLOC:
         return ("unsure", "steps=%d alloc=%d" % (steps, alloc))
+    if alloc > 4 * (K_ALLOC * n + K0_ALLOC):
+        return ("overalloc", cl)
+    if alloc > (K_ALLOC * n + K0_ALLOC) // 4:
+        return ("unsure", "alloc=%d near the bound" % alloc)
     if m.get("corrupt") == 1:
         return ("corrupt", cl)
     return (cl, "")
@@ -593,12 +641,16 @@ def agree(exp, icl, ikey, case_len, m, o):
         return None
     if kind == "panic":
         want = SITE_KEY.get(det, det)
+        if det in FATAL_SITES:
+            return True if ikey == want else None      # the damage need not be visible at once
         if icl == "panic":
             return ikey == want
         if icl == "fatal" and det.startswith("alloc-range"):
             return True
         return False
     if kind == "blowup":
+        return icl == "fatal" or (ikey or "").startswith("overalloc")
+    if kind == "overalloc":
         return icl == "fatal" or (ikey or "").startswith("overalloc")
     if kind == "corrupt":
         if (ikey or "").startswith("corrupt-value"):
@@ -612,7 +664,11 @@ def agree(exp, icl, ikey, case_len, m, o):
 
 
 def run(ctx):
+    import time
+    T = {}
+    t0 = time.time()
     proved = ctx.prove()
+    T["prove"] = round(time.time() - t0, 1); t0 = time.time()
     hv.build_harness("c04")
     hv.build_modelrun("c04")
     ctx.assumptions += [
@@ -630,16 +686,22 @@ def run(ctx):
     checked_s = ",".join(checked) if checked else "-"
     ctx.note("tree_checks", {"checked_sites": checked, "behavioural_repairs": fx, "witnesses": detail})
 
+    T["build+calibrate"] = round(time.time() - t0, 1); t0 = time.time()
     g = generate(ctx, seeds)
     cases = g.cases
+    T["generate"] = round(time.time() - t0, 1); t0 = time.time()
     ctx.note("generators", g.by_gen)
     oracle_cache = {}
     model = run_model(cases, fixbits, checked_s, oracle_cache)
 
+    T["model"] = round(time.time() - t0, 1); t0 = time.time()
     # schedule: cases the model expects to blow up go to a separate, budgeted batch
-    light, heavy = [], []
+    light, heavy, alone = [], [], []
     for c in cases:
         m = model[c["id"]]
+        if m["class"].startswith("panic:") and m["class"][6:] in FATAL_SITES:
+            alone.append(c)
+            continue
         big = (m.get("steps", 0) > HEAVY_STEPS or m.get("alloc", 0) > HEAVY_ALLOC or len(c["hex"]) > 400000)
         (heavy if big else light).append(c)
     budget = 14 if ctx.tier == "quick" else 60
@@ -661,11 +723,22 @@ def run(ctx):
         chosen.append(c)
     ctx.note("heavy_cases", {"model_predicted": len(heavy), "executed": len(chosen)})
 
-    obs, crashes = run_impl_frames(light, 60 if ctx.tier == "quick" else 400)
-    obs2, crashes2 = run_impl_frames(chosen, 200)
+    obs, crashes = run_impl_frames(light, 4000, 6 if ctx.tier == "quick" else 30)
+    T["impl_light"] = round(time.time() - t0, 1); t0 = time.time()
+    obs2, crashes2 = run_impl_frames(chosen, 200, 20)
+    T["impl_heavy"] = round(time.time() - t0, 1); t0 = time.time()
     obs.update(obs2)
     crashes.update(crashes2)
-    ran = {c["id"] for c in light} | {c["id"] for c in chosen}
+    ctx.rng.shuffle(alone)
+    alone_run = sorted(alone[:(8 if ctx.tier == "quick" else 40)], key=lambda c: len(c["hex"]))
+    for c in alone_run:
+        o1, c1 = run_impl_frames([c], 2)
+        obs.update(o1)
+        crashes.update(c1)
+    T["impl_isolated"] = round(time.time() - t0, 1); t0 = time.time()
+    ctx.note("phase_seconds", T)
+    ctx.note("isolated_cases", {"model_predicted_fatal": len(alone), "executed_each_in_its_own_process": len(alone_run)})
+    ran = {c["id"] for c in light} | {c["id"] for c in chosen} | {c["id"] for c in alone_run}
 
     failing = {}      # key -> (len, case, what, model)
     disagree = {}
@@ -702,9 +775,9 @@ def run(ctx):
                 failing[ikey] = (n, c, what, m["raw"])
             ctx.bump("failing_by_key", ikey)
         # correspondence
-        a = agree(expected_from_model(m), icl, ikey, n, m, o)
+        a = agree(expected_from_model(m, n), icl, ikey, n, m, o)
         if a is None:
-            stats["skipped" if expected_from_model(m)[0] == "skip" else "inconclusive"] += 1
+            stats["skipped" if expected_from_model(m, n)[0] == "skip" else "inconclusive"] += 1
         elif a:
             stats["agree"] += 1
             if o is not None and m.get("err") not in (None, "-") and o.get("errclass"):
